@@ -41,6 +41,19 @@ theorem legal_never_rejected :
 theorem discriminants :
     TDEFLFlush.all = [0, 1, 2, 3, 4, 5, 6, 7] ∧ TDEFLStatus.all = [-2, -1, 0, 1] := by decide +kernel
 
+def maxOf (a : Array Int) : Int := a.foldl max 0
+
+/-- `compress_lz_codes` accumulates codes in a 64-bit buffer and flushes whole bytes after each
+    group, leaving at most 7 bits pending. With the code-size limits REGENERATED from the calls to
+    `optimize_table`, the extra-bit tables and the literal batch size of the source, the largest
+    group (a batch of literals, or one length + distance pair with their extra bits) always fits:
+    7 + max(batch·15, 15 + 5 + 15 + 13) ≤ 64. A larger batch silently drops bits in release builds. -/
+theorem lz_bitbuffer_never_overflows :
+    let codeMax := max (maxOf DYN_CODE_SIZE_LIMITS) (maxOf STATIC_CODE_SIZE_LIMITS)
+    7 + max (LZ_LITERAL_BATCH * codeMax)
+            (codeMax + maxOf LEN_EXTRA + codeMax + max (maxOf SMALL_DIST_EXTRA) (maxOf LARGE_DIST_EXTRA)) ≤ 64 ∧
+    codeMax ≤ 15 ∧ G.idx DYN_CODE_SIZE_LIMITS 2 ≤ 7 := by decide +kernel
+
 example : guard_rejects TDEFLStatus.Okay TDEFLFlush.Finish TDEFLFlush.None = true := by decide +kernel
 example : guard_rejects TDEFLStatus.Okay TDEFLFlush.Sync TDEFLFlush.Finish = false := by decide +kernel
 
